@@ -66,6 +66,10 @@ type Hub struct {
 	pairingUpdateReported map[string]uint64
 	muxPairingUpdate      sync.Mutex
 
+	// checking for a double connection and registering the new connection has to be one step,
+	// otherwise an incoming and an outgoing connection to the same service can both pass the check
+	muxConSetup sync.Mutex
+
 	muxCon        sync.Mutex
 	muxConAttempt sync.Mutex
 	muxReg        sync.Mutex
